@@ -76,14 +76,27 @@ impl DocumentBuilder {
         self.element_builder = Some(ElementBuilder::new(prefix, name));
     }
 
-    fn prefix(&mut self, prefix: &str, namespace_uri: &str, xot: &mut Xot) {
+    fn prefix(
+        &mut self,
+        prefix: &str,
+        namespace_uri: &str,
+        span: Span,
+        xot: &mut Xot,
+    ) -> Result<(), ParseError> {
         let prefix_id = xot.prefix_lookup.get_id_mut(prefix);
         let namespace_id = xot.namespace_lookup.get_id_mut(namespace_uri);
-        self.element_builder
-            .as_mut()
-            .unwrap()
-            .namespaces
-            .push((prefix_id, namespace_id));
+        let namespaces = &mut self.element_builder.as_mut().unwrap().namespaces;
+        // a namespace declaration is an attribute and may occur only once
+        if namespaces.iter().any(|(p, _)| *p == prefix_id) {
+            let attr_name = if prefix.is_empty() {
+                "xmlns".to_string()
+            } else {
+                format!("xmlns:{}", prefix)
+            };
+            return Err(ParseError::DuplicateAttribute(attr_name, span));
+        }
+        namespaces.push((prefix_id, namespace_id));
+        Ok(())
     }
 
     fn attribute(
@@ -717,10 +730,11 @@ impl Xot {
                     } => {
                         if prefix.as_str() == "xmlns" {
                             let uri = parse_attribute(value.as_str().into(), value.start())?;
-                            builder.prefix(local.as_str(), &uri, self);
+                            let span = Span::from_prefix_name(prefix, local);
+                            builder.prefix(local.as_str(), &uri, span, self)?;
                         } else if local.as_str() == "xmlns" {
                             let uri = parse_attribute(value.as_str().into(), value.start())?;
-                            builder.prefix("", &uri, self);
+                            builder.prefix("", &uri, local.into(), self)?;
                         } else {
                             builder.attribute(prefix, local, value)?;
                         }
